@@ -31,7 +31,7 @@ __CPROVER_ensures(IMP(__CPROVER_return_value == NULL, *n == __CPROVER_old(*n) &&
 __CPROVER_ensures(IMP(__CPROVER_return_value != NULL, *n == __CPROVER_old(*n) + 1 && *n <= *n_alloc && *n_alloc >= __CPROVER_old(*n_alloc)
                       && __CPROVER_OBJECT_SIZE(__CPROVER_return_value) >= (size_t)*n * 40))
 ;
-void h_vector_grow_one(void) { void *p; uint16 *a, *n; size_t s; vector_grow_one(p, a, n, s); VERIF_CANARY(); }
+void h_vector_grow_one(void) { void *p; uint16 *a, *n; vector_grow_one(p, a, n, 40); VERIF_CANARY(); }  /* item size constant: symex folds the multiplications */
 #endif
 
 /* bounded: durations and scores propagate from states to phones to words as sums; a parent starts with its first child */
